@@ -58,7 +58,7 @@ Section Codec.
      c_body c = SOk (WCoded k (enc k lvl (r_body r)) true)).
   Proof.
     unfold compress_body. destruct (r_ce r) eqn:Ece; [|now left].
-    destruct (compressible (r_ct r)); cbn [negb]; [|now left].
+    destruct (compressible (r_nodefct r) (r_ct r)); cbn [negb]; [|now left].
     destruct (r_streamed r).
     - right. cbn [c_ce c_vary c_body]. repeat split. unfold stream_compress, coder_output.
       now rewrite stream_consumed_concat, writer_do_id.
@@ -103,6 +103,30 @@ Section Codec.
     unfold compress_handler. destruct (choose kd ae) as [k|] eqn:E; cbn [snd]; [|now left].
     destruct (compress_body_shape k (level_for kd k bl ol) inflight cap sched r) as [H | (H1 & H2 & _ & H3)]; [now left|].
     right. exists k, (level_for kd k bl ol). auto.
+  Qed.
+
+  (* wrapping twice changes nothing: the outer wrapper leaves the inner wrapper's response as it is, whenever the inner
+     one coded the body, and decides like the inner one otherwise; in every case the body decodes to the handler's *)
+  Lemma twice_roundtrip kd bl ol ae inflight cap sched r :
+    exists w, c_body (compress_handler_twice enc kd bl ol ae inflight cap sched r) = SOk w /\ decode dec w = Some (r_body r).
+  Proof.
+    unfold compress_handler_twice.
+    destruct (roundtrip_any_load kd bl ol ae inflight cap sched r) as (w1 & H1 & D1).
+    set (c1 := snd (compress_handler enc kd bl ol ae inflight cap sched r)) in *.
+    set (r2 := {| r_ce := c_ce c1; r_ct := r_ct r; r_nodefct := r_nodefct r; r_vary := c_vary c1;
+                  r_streamed := r_streamed r; r_chunks := [wire_bytes (c_body c1) (r_body r)] |}).
+    pose proof (coded_once kd bl ol ae inflight cap sched r) as Hco. cbn zeta in Hco. fold c1 in Hco.
+    destruct Hco as [Hu | (k & lvl & Hk & Hce & Htok & Hb)].
+    - (* inner left it alone: r2 is r with its body in one chunk *)
+      destruct (roundtrip_any_load kd bl ol ae inflight cap sched r2) as (w2 & H2 & D2).
+      assert (Eb : r_body r2 = r_body r).
+      { unfold r2, r_body at 1. cbn [r_chunks concat]. rewrite Hu. cbn [unchanged c_body wire_bytes]. now rewrite app_nil_r. }
+      rewrite H2. destruct w2 as [b|k p c].
+      + cbn [c_body]. exists w1. auto.
+      + exists (WCoded k p c). split; [exact H2|]. now rewrite D2, Eb.
+    - (* inner coded it: the outer sees a Content-Encoding and leaves everything alone *)
+      assert (Hne : r_ce r2 <> []) by (unfold r2; cbn [r_ce]; rewrite Htok; apply tok_nonempty).
+      rewrite (never_twice kd bl ol ae inflight cap sched r2 Hne). cbn [unchanged c_body]. exists w1. auto.
   Qed.
 End Codec.
 
